@@ -18,6 +18,7 @@ package vsim
 // the world's PRNG.  Happens-before edges for the race detector: release at send/close, acquire at receive.
 
 import (
+	"sync"
 	"time"
 	"unsafe"
 )
@@ -62,10 +63,21 @@ func MakeChan[T any](size ...int) *Chan[T] {
 	if n > 0 {
 		c.buf = make([]T, n)
 	}
-	if world() == nil {
-		c.real = make(chan T, n)
-	}
 	return c
+}
+
+var realChanMu sync.Mutex
+
+// realChan is the pass-through representation: operations performed outside a world (the repository's own
+// tests on the instrumented copy) go to a real channel created on first use.  A channel made by a
+// package-level initialiser is therefore simulated inside worlds and real outside them.
+func (c *Chan[T]) realChan() chan T {
+	realChanMu.Lock()
+	defer realChanMu.Unlock()
+	if c.real == nil {
+		c.real = make(chan T, c.capa)
+	}
+	return c.real
 }
 
 //go:norace
@@ -217,8 +229,8 @@ func (c *Chan[T]) timeTake(w *World) {
 }
 
 func (c *Chan[T]) Send(v T) {
-	if c != nil && c.real != nil {
-		c.real <- v
+	if c != nil && world() == nil {
+		c.realChan() <- v
 		return
 	}
 	c.sendSim(v)
@@ -263,8 +275,8 @@ func (c *Chan[T]) Recv() T {
 }
 
 func (c *Chan[T]) Recv2() (T, bool) {
-	if c != nil && c.real != nil {
-		v, ok := <-c.real
+	if c != nil && c.tk == nil && c.tm == nil && world() == nil {
+		v, ok := <-c.realChan()
 		return v, ok
 	}
 	if c != nil && c.tk != nil && c.tk.real != nil {
@@ -338,8 +350,8 @@ func blockForever(w *World, t *Task) {
 
 // Close is what close(c) is rewritten to.
 func Close[T any](c *Chan[T]) {
-	if c.real != nil {
-		close(c.real)
+	if world() == nil {
+		close(c.realChan())
 		return
 	}
 	c.closeSim()
